@@ -126,3 +126,42 @@ def conv_definition(D, image, filt, is_torus, stride=1, padding=None, lhs_dilati
                             el.append(A.poly_sum(items))
     kout = (kf - ki) if contract else (ki + kf)
     return A.Arr((B, O) + tuple(outsp) + (D,) * kout, el, "float")
+
+
+def option_box(D, N, M=3, symmetric_only=False, unit_stride=False):
+    """The canonical (padding, stride, rhs_dilation, lhs_dilation, is_torus) combinations that every
+    convolution-related property (C01, C04, C06, C11) sweeps on a representative configuration, so that no
+    property's box lacks an option another one has.  Only combinations with a non-empty output are returned;
+    wrap padding together with image dilation is left out (the library warns, the statement is ambiguous)."""
+    mixed = (True, False, True)[:D]
+    none = (False,) * D
+    sym = [[1, 1]] * D
+    asym = [[1, 2]] * D if D == 2 else [[1, 0], [0, 1], [1, 1]]
+    aniso = lambda a, b: (a, b) + (a,) * (D - 2)
+    out = []
+    for padding in ("TORUS", "SAME", "VALID", None, 0, 1, 2, sym) + (() if symmetric_only else (asym,)):
+        for rd in (1, 2, 3):
+            out.append((padding, 1, rd, None, mixed))
+    out.append(("TORUS", 1, aniso(1, 2), None, (True,) * D))
+    out.append(("SAME", 1, aniso(2, 1), None, none))
+    out.append((None, 1, 1, None, none))
+    for padding in ("SAME", None, "VALID", 1, sym):
+        for ld in ((2,) * D, (3,) * D, aniso(2, 1)):
+            out.append((padding, 1, 1, list(ld), none if padding is None else mixed))
+    out.append(("SAME", 1, 2, [3] * D, mixed))
+    if not unit_stride:
+        for padding in ("TORUS", "SAME", "VALID", 0, 1):
+            for stride in (2, aniso(1, 2)):
+                out.append((padding, stride, 1, None, mixed))
+    keep = []
+    for padding, stride, rd, ld, flags in out:
+        _, st, pads, ldn, rdn = norm_opts(D, flags, stride, padding, ld, rd, (M,) * D)
+        ok = True
+        for a in range(D):
+            dil_in = (N[a] - 1) * ldn[a] + 1
+            k_eff = (M - 1) * rdn[a] + 1
+            if dil_in + pads[a][1] + pads[a][2] - k_eff < 0:
+                ok = False
+        if ok:
+            keep.append((padding, stride, rd, ld, flags))
+    return keep
